@@ -2,6 +2,7 @@
   C20 — Python predicates are interchangeable with compiled ones.
 -/
 import Yld.Model.Api
+import Yld.Proofs.PyFacts
 namespace Yld.C20
 
 /-- Whether generated code (or a Python predicate) yields True or False is irrelevant to every
@@ -41,5 +42,18 @@ theorem chain_single (cfg : Cfg) (f : Nat) (d : Def) (args : List Term) (k : K) 
   simp only [runChain]
   cases h : runDef cfg (f+1) d args k w with
   | mk w' s => cases s <;> simp [runChain]
+
+/-- **Interchangeable.** A Python predicate that unifies its arguments with each of its rows in turn and the
+    compiled predicate whose clauses are those rows written as facts are the same definition: the same
+    generator for every consumer and every world (same yields, same cells, same outcome), for rows in the
+    canonical form in which facts are stored and calls of the rows' arity. -/
+theorem python_predicate_is_the_predicate_of_its_rows (cfg : Cfg) (f : Nat) (name : String) (rows : List Fact) (args : List Term)
+    (hok : ∀ r ∈ rows, RowOK r) (hlen : ∀ r ∈ rows, r.args.length = args.length) (k : K) (w : World) :
+    runDef cfg (f+1) (.py { rows := rows, raiseAt := none }) args k w =
+    runDef cfg (f+1) (.prolog { name := name, arity := args.length, clauses := rows.map factClause } .reference) args k w :=
+  py_pred_is_the_fact_predicate cfg f name rows args hok hlen k w
+
+/-- Not vacuous: two rows in canonical form, `p(a, X, X)` and `p(b, 3, f(Y))`. -/
+example : ∀ r ∈ PF.exRows, RowOK r := PF.exRows_ok
 
 end Yld.C20
